@@ -4,9 +4,17 @@ from mc import core, det
 PROPERTY = 'C14'
 ENGINE = 'E1 bounded-exhaustive enumeration of (key length, message length, declared-length variant) against an independent AES-CBC/PKCS7 computation'
 LEVEL = 'model_checking'
+DIRECTED_ADDITIONS = '600 (5000) encryptions per object with IV variety, 3000 (20000) wrong keys per ciphertext, near wrong keys, lengths around 256 / 4096, keyword calls, pickled / deep-copied objects, constructor domain 0..130'      # members added during the seeded-change campaign (DESIGN 7); counted under their own vacuity counters
+
 
 
 def describe(tier):
+    d = _describe(tier)
+    d['rule'] = d['rule'] + ' Directed additions: ' + DIRECTED_ADDITIONS + '.'
+    return d
+
+
+def _describe(tier):
     hi = 200 if tier == 'quick' else 300
     return {
         'rule': 'case = (key length in {16,24,32}, key #0..2, message length); ALL message lengths 0..%d%s; per case: '
